@@ -77,10 +77,11 @@ func genNodes(t *rapid.T, o GenOpts) []NodeSpec {
 	return out
 }
 
-func genQRes(t *rapid.T, label string, o GenOpts, unit float64, quotaChoices []float64) QRes {
+func genQRes(t *rapid.T, label string, o GenOpts, limitChoices []float64, quotaChoices []float64) QRes {
+	unit := 1.0
 	q := QRes{Quota: pick(t, label+"quota", quotaChoices...) * unit, Limit: -1, Weight: pick(t, label+"w", 1.0, 1.0, 2.0, 0.0, 3.0, 0.5)}
-	if o.Limits && chance(t, label+"haslimit", 35) {
-		q.Limit = pick(t, label+"limit", 0.0, 0.5, 1, 2, 3, 4, 8) * unit
+	if o.Limits && chance(t, label+"haslimit", 15) {
+		q.Limit = pick(t, label+"limit", limitChoices...)
 	}
 	return q
 }
@@ -92,9 +93,9 @@ func genQueues(t *rapid.T, o GenOpts) (all []QueueSpec, leaves []string) {
 	quotaM := []float64{0, 0, 4096, 16384, -1}
 	mk := func(name, parent string) QueueSpec {
 		q := QueueSpec{Name: name, Parent: parent}
-		q.GPU = genQRes(t, "g", o, 1, quotaG)
-		q.CPU = genQRes(t, "c", o, 1, quotaC)
-		q.Mem = genQRes(t, "m", o, 1, quotaM)
+		q.GPU = genQRes(t, "g", o, []float64{0, 0.5, 1, 2, 3, 4, 8}, quotaG)
+		q.CPU = genQRes(t, "c", o, []float64{0, 1000, 2000, 4000, 8000, 16000}, quotaC)
+		q.Mem = genQRes(t, "m", o, []float64{0, 1024, 4096, 16384, 65536}, quotaM)
 		if o.Priorities && chance(t, "qprio", 30) {
 			p := pick(t, "qpriov", 50, 100, 200)
 			q.Priority = &p
@@ -415,7 +416,7 @@ func genConfig(t *rapid.T, o GenOpts) SchedConfig {
 	c.GPUSharingOrder = pick(t, "gpuorder", "gpupack", "gpuspread")
 	c.UseSignatures = chance(t, "signatures", 70)
 	c.ConsolidatingReclaim = chance(t, "consreclaim", 50)
-	c.FullHierarchyFairness = chance(t, "fullfair", 80)
+	c.FullHierarchyFairness = true
 	if o.Actions == nil && chance(t, "dropaction", 25) {
 		drop := pick(t, "dropwhich", "consolidation", "reclaim", "preempt", "stalegangeviction")
 		var as []string
